@@ -128,6 +128,27 @@ func c14R1(c *Ctx) {
 		}
 	}
 	c.check(clampIf, "handshake/protocol-clamp", c.ipos(sa[0]), "protocol above the relay's maximum is lowered before the re-send", "the relay forwards a protocol version above what it understands")
+	// the relay's config decoder: defaults are stored before the peer's document is decoded over them, nothing afterwards
+	rcf := c.fn("TrzszRelay.recvConfig")
+	var um ssa.Instruction
+	for _, ci := range callsIn(rcf, idIs("encoding/json.Unmarshal")) {
+		um = ci.(ssa.Instruction)
+	}
+	if um == nil {
+		c.bad("relay.recvConfig/decode", c.pos(rcf.Pos()), "the relay does not decode the server's config")
+	} else {
+		eachInstr(rcf, func(in ssa.Instruction) {
+			st, ok := in.(*ssa.Store)
+			if !ok {
+				return
+			}
+			n, ok := fieldAddrName(st.Addr)
+			if !ok || !strings.HasPrefix(n, "transferConfig.") {
+				return
+			}
+			c.check(precedes(st, um) || domI(st, um), "relay.recvConfig/defaults-before-decode."+n, c.ipos(st), "defaults are set before decoding, so every value the server sent wins", "a config field is (re)written after decoding the server's document: a server setting equal to the zero value (e.g. timeout 0 = never) is replaced by the relay's default")
+		})
+	}
 	// config rewrites
 	rc := callsIn(f, idIs("(*trzsz.TrzszRelay).recvConfig"))
 	sc := callsIn(f, idIs("(*trzsz.TrzszRelay).sendConfig"))
